@@ -146,7 +146,7 @@ passage by its own id, names an existing initial passage that can be entered wit
 argument validator on every top-level choice and jump -/
 theorem parseStory_wf (O : PyOracle) (src : Line) (p : Parsed) (h : parseStory O src = .ok p) : p.WF O := by
   suffices hp : Post (parseStory O src) (Parsed.WF O) from hp.h p h
-  unfold parseStory
+  unfold parseStory parseLines
   conv => zeta
   refine Post.bind (coreLoop_keys O _ _ 0 {} (by intro kv hkv; cases hkv)) ?_
   intro s hk0
